@@ -2309,9 +2309,11 @@ func (c *DnsController) HandleWithResponseWriter_(ctx context.Context, dnsMessag
 	// A query carries exactly one question (RFC 9619). Request routing, the cache key,
 	// the singleflight key and the question check of the answer all look at Question[0]
 	// only: a further question would be forwarded unrouted (past a reject rule) and its
-	// answer cached under the first question's key. Refuse such a query like resolvers do.
-	if len(dnsMessage.Question) > 1 && !dnsMessage.Response {
-		return c.sendDnsErrorResponse_(dnsMessage, dnsmessage.RcodeFormatError, "Refuse query with more than one question", req, responseWriter)
+	// answer cached under the first question's key; with no question at all there is nothing
+	// the answer could be checked against and it would be cached under the key of the root
+	// name and type 0. Refuse such queries like resolvers do.
+	if len(dnsMessage.Question) != 1 && !dnsMessage.Response {
+		return c.sendDnsErrorResponse_(dnsMessage, dnsmessage.RcodeFormatError, "Refuse query without exactly one question", req, responseWriter)
 	}
 	var upstreamIndex consts.DnsRequestOutboundIndex
 	var upstream *dns.Upstream
